@@ -6,7 +6,7 @@ the read lemma "ReadInv ⇒ read = spec read". Property statements:
 
 Parts 1–3: `Proofs/ReadPathRef.lean` (`RefinesNoCache`, `call_refinesNC`),
 `Proofs/ReadPathWorker.lean` (worker steps: file entries, eviction boundary),
-`Proofs/ReadPathStore.lean` (`RInv`, caller-side building blocks).
+`Proofs/ReadPathStore.lean` (`RdInv`, caller-side building blocks).
 -/
 import RaftLogModel.Proofs.ReadPathStore
 namespace RaftLog
@@ -81,10 +81,10 @@ theorem RefLog.WF.payload_unique {r : RefLog} (h : r.WF) {id : LogId} {p q : Byt
 /-! ### The system-level invariant -/
 
 /-- **The read-path invariant of a system with a live store and worker**: the
-journal invariant `J` (`JInv`), the store-level read-path invariant `RInv`
+journal invariant `J` (`JInv`), the store-level read-path invariant `RdInv`
 against the reference log `r`, and well-formed spec entries. -/
 def ReadInv (y : Sys) (r : RefLog) : Prop :=
-  ∃ s, y.store = some s ∧ y.worker.pc ≠ .dead ∧ JInv s y.fs y.worker ∧ RInv s y.fs y.worker r ∧
+  ∃ s, y.store = some s ∧ y.worker.pc ≠ .dead ∧ JInv s y.fs y.worker ∧ RdInv s y.fs y.worker r ∧
     r.EntriesWF
 
 theorem ReadInv.toJ {y : Sys} {r : RefLog} (h : ReadInv y r) : J y := by
@@ -126,14 +126,14 @@ theorem ReadInv.worker {y : Sys} {r : RefLog} (h : ReadInv y r) (out : Outcome)
     (hj.annFs _ (by simp [Worker.announced])) hnd
   have hids := WCtx.step_ids { w := y.worker, fs := y.fs, cache := s.cache } out
   have hj' := JInv.worker (c := { w := y.worker, fs := y.fs, cache := s.cache }) hj g hids
-  have hr' := RInv.wstep (s := s) (c := { w := y.worker, fs := y.fs, cache := s.cache }) hj hr g
+  have hr' := RdInv.wstep (s := s) (c := { w := y.worker, fs := y.fs, cache := s.cache }) hj hr g
     (WCtx.step_same _ out) (WCtx.step_fents _ out) (WCtx.step_bnd _ out)
   exact ⟨_, rfl, hnd, hj'.of_fields rfl rfl rfl rfl rfl, hr', hew⟩
 
-theorem RInv.runQuiet {s : Store} {r : RefLog} (n : Nat) : ∀ (c : WCtx), JInv s c.fs c.w →
-    RInv ({ s with cache := c.cache } : Store) c.fs c.w r → (WCtx.runQuiet n c).w.pc ≠ .dead →
+theorem RdInv.runQuiet {s : Store} {r : RefLog} (n : Nat) : ∀ (c : WCtx), JInv s c.fs c.w →
+    RdInv ({ s with cache := c.cache } : Store) c.fs c.w r → (WCtx.runQuiet n c).w.pc ≠ .dead →
     JInv s (WCtx.runQuiet n c).fs (WCtx.runQuiet n c).w ∧
-    RInv ({ s with cache := (WCtx.runQuiet n c).cache } : Store) (WCtx.runQuiet n c).fs
+    RdInv ({ s with cache := (WCtx.runQuiet n c).cache } : Store) (WCtx.runQuiet n c).fs
       (WCtx.runQuiet n c).w r := by
   induction n with
   | zero => intro c hj hr _; exact ⟨hj, hr⟩
@@ -150,14 +150,14 @@ theorem RInv.runQuiet {s : Store} {r : RefLog} (n : Nat) : ∀ (c : WCtx), JInv 
         exact hnd hdead
       have g := WCtx.step_good c .ok hj.wok (hj.annFs _ (by simp [Worker.announced])) hnd1
       have hj' := JInv.worker hj g (WCtx.step_ids c .ok)
-      have hr' := RInv.wstep hj hr g (WCtx.step_same c .ok) (WCtx.step_fents c .ok) (WCtx.step_bnd c .ok)
+      have hr' := RdInv.wstep hj hr g (WCtx.step_same c .ok) (WCtx.step_fents c .ok) (WCtx.step_bnd c .ok)
       exact ih (c.step .ok) hj' hr' hnd
 
 theorem ReadInv.workerIdle {y : Sys} {r : RefLog} (h : ReadInv y r)
     (hnd : (y.step .workerIdle).worker.pc ≠ .dead) : ReadInv (y.step .workerIdle) r := by
   obtain ⟨s, hs, hd, hj, hr, hew⟩ := h
   simp only [Sys.step, Sys.workerIdle, hs] at hnd ⊢
-  obtain ⟨hj', hr'⟩ := RInv.runQuiet (s := s) y.worker.fuel
+  obtain ⟨hj', hr'⟩ := RdInv.runQuiet (s := s) y.worker.fuel
     { w := y.worker, fs := y.fs, cache := s.cache } hj hr hnd
   exact ⟨_, rfl, hnd, hj'.of_fields rfl rfl rfl rfl rfl, hr', hew⟩
 
@@ -281,8 +281,8 @@ theorem run_readInv (steps : List Step) : ∀ (y : Sys) (r r' : RefLog), ReadInv
 /-- A non-resident live entry whose chunk is older than the worker's newest
 file: its chunk is closed, its record is completely in the chunk FILE at
 `[off - chunk, + size)`, and `loadPayload` returns its payload. -/
-theorem RInv.on_disk {s : Store} {fs : Fs} {w : Worker} {r : RefLog} (hj : JInv s fs w)
-    (h : RInv s fs w r) (hew : r.EntriesWF) {x : Nat × LogData} (hx : x ∈ s.log) {p : Bytes}
+theorem RdInv.on_disk {s : Store} {fs : Fs} {w : Worker} {r : RefLog} (hj : JInv s fs w)
+    (h : RdInv s fs w r) (hew : r.EntriesWF) {x : Nat × LogData} (hx : x ∈ s.log) {p : Bytes}
     (hp : (x.2.id, p) ∈ r.entries) (hlt : x.2.chunk < w.cur) :
     (∃ c ∈ s.closed, c.id = x.2.chunk) ∧
     (∃ f, fs.find x.2.chunk = some f ∧ x.2.off - x.2.chunk + x.2.size ≤ f.data.length ∧
@@ -367,8 +367,8 @@ theorem readLoop_itemOK (s : Store) (fs : Fs) (l : List (Nat × LogData)) (es : 
 
 /-- Every lookup of a live entry returns its spec payload: from the cache, or
 from the file of its closed chunk. -/
-theorem RInv.itemOK {s : Store} {fs : Fs} {w : Worker} {r : RefLog} (hj : JInv s fs w)
-    (h : RInv s fs w r) (hew : r.EntriesWF) :
+theorem RdInv.itemOK {s : Store} {fs : Fs} {w : Worker} {r : RefLog} (hj : JInv s fs w)
+    (h : RdInv s fs w r) (hew : r.EntriesWF) :
     ∀ x ∈ s.log, ∀ e ∈ r.entries, e.1 = x.2.id → ItemOK s fs x.2 e.2 := by
   intro x hx e he hid
   obtain ⟨a, b⟩ := e
